@@ -801,36 +801,74 @@ func r6C07(c *Ctx) {
 		FCmp("==", MCall("GetResourceVersion"), MCall("GetResourceVersion")),
 		FTrue(MCall("reflect.DeepEqual")),
 	)
+	hasTypeAssert := func(g *ssa.Function) int {
+		n := 0
+		for _, b := range g.Blocks {
+			for _, in := range b.Instrs {
+				if ta, ok := in.(*ssa.TypeAssert); ok && ta.CommaOk {
+					n++
+				}
+			}
+		}
+		return n
+	}
+	typeAssertIf := func(b *ssa.BasicBlock) bool {
+		if len(b.Instrs) == 0 {
+			return false
+		}
+		iff, ok := b.Instrs[len(b.Instrs)-1].(*ssa.If)
+		if !ok {
+			return false
+		}
+		ex, ok := iff.Cond.(*ssa.Extract)
+		if !ok {
+			return false
+		}
+		_, isTA := ex.Tuple.(*ssa.TypeAssert)
+		return isTA
+	}
 	for _, name := range []string{"pkg/controller/batchrelease.workloadEventHandler.Update", "pkg/controller/batchrelease.workloadEventHandler.handleWorkload"} {
 		fn := p.Func(name)
 		if fn == nil {
 			c.Unresolved("R7.10", name)
 			continue
 		}
-		n := 0
-		bad := ""
 		isRet := func(in ssa.Instruction) bool { _, ok := in.(*ssa.Return); return ok && in.Block() != fn.Recover }
-		for _, b := range fn.Blocks {
-			if len(b.Instrs) == 0 {
-				continue
+		// the exit for an unrecognised kind: the return reached through type-switch edges alone, or the
+		// edge on which a kind classifier of the package (a function built around a type switch) said no
+		unrecognised := map[ssa.Instruction]bool{}
+		for _, r := range WalkCP(Entry(fn), nil, isRet, ReachOpts{CutEdge: func(b *ssa.BasicBlock, k int) bool { return !typeAssertIf(b) }}) {
+			unrecognised[r.Instr] = true
+		}
+		kinds := hasTypeAssert(fn)
+		classifierNo := func(b *ssa.BasicBlock, k int) bool {
+			if len(b.Instrs) == 0 || len(b.Succs) != 2 {
+				return false
 			}
 			iff, ok := b.Instrs[len(b.Instrs)-1].(*ssa.If)
 			if !ok {
-				continue
+				return false
 			}
-			ex, ok := iff.Cond.(*ssa.Extract)
-			if !ok {
-				continue
+			f := FactOf(iff.Cond, k == 0)
+			if f.Op != "==" || f.R == nil || f.R.Name != "false" || f.L == nil || f.L.Call == nil {
+				return false
 			}
-			if _, isTA := ex.Tuple.(*ssa.TypeAssert); !isTA {
-				continue
+			g := f.L.Call.Call.StaticCallee()
+			if g == nil || g.Pkg != fn.Pkg || g.Blocks == nil || hasTypeAssert(g) == 0 {
+				return false
 			}
-			n++
-			if reach, at := CanReach(Point{Block: b.Succs[0]}, isRet, ReachOpts{CutInstr: lookup, CutEdge: func(bb *ssa.BasicBlock, k int) bool { return EdgeFactMatches(bb, k, unchanged) }}); reach {
-				bad = "the handler can return at " + p.Pos(at.Pos()) + " for a workload of a recognised kind whose generation or status changed, without having looked up the BatchRelease that refers to it: a BatchRelease parked without a requeue (workload generation not yet observed, control annotation not yet written) is then never woken"
-			}
+			kinds += hasTypeAssert(g)
+			return true
 		}
-		c.Ob("R7.10", shortName(name)+"#always-looks-up", fn.Pos(), n > 0 && bad == "", "every changed workload of a recognised kind reaches getBatchRelease (which falls back to the workloadRef when the control annotation is absent)", bad+ifs(n == 0, "type switch over the workload kinds not found"))
+		target := func(in ssa.Instruction) bool { return isRet(in) && !unrecognised[in] }
+		reach, at := CanReach(Entry(fn), target, ReachOpts{CutInstr: lookup, CutEdge: func(bb *ssa.BasicBlock, k int) bool {
+			return EdgeFactMatches(bb, k, unchanged) || classifierNo(bb, k)
+		}})
+		bad := ""
+		if reach {
+			bad = "the handler can return at " + p.Pos(at.Pos()) + " for a workload of a recognised kind whose generation or status changed, without having looked up the BatchRelease that refers to it: a BatchRelease parked without a requeue (workload generation not yet observed, control annotation not yet written) is then never woken"
+		}
+		c.Ob("R7.10", shortName(name)+"#always-looks-up", fn.Pos(), kinds > 0 && bad == "", "every changed workload of a recognised kind reaches getBatchRelease (which falls back to the workloadRef when the control annotation is absent)", bad+ifs(kinds == 0, "type switch over the workload kinds not found"))
 	}
 }
 
